@@ -62,4 +62,14 @@ TEXTS = {
                     "whole sequence; no claim beyond the explored histories."),
         level_note=("Trusted: the table model of the harness and its reading of the documented semantics of each editing call (assumptions in the evidence), rapidcheck. "
                     "Tables <= 12 columns x 14 samples, 2-D unrotated grids; names limited to a regex-safe alphabet.")),
+    "C09": dict(
+        engine="libFuzzer + deterministic fault enumeration",
+        technique="fuzzing: exhaustive enumeration of write-interruption points (every prefix) and single-token corruptions of valid files, plus coverage-guided libFuzzer campaigns (thorough), ASan/UBSan + in-target semantic oracle (loaded object usable, savable, reloadable)",
+        design_ref="DESIGN.md §5 C09, §10.4",
+        level_text=("Fault enumeration: for each of 32 readers (26 neutral-file classes, CSV, Zycor, IFPEN, BMP, F2G, LAS) every truncation point and a finite "
+                    "set of single-fault corruptions of valid files produced by the tree under test are executed under ASan/UBSan with memory/time limits; "
+                    "an accepted input must yield an object that can be used, saved and loaded again. The thorough tier adds coverage-guided mutation. "
+                    "76 genuine defects of the unchanged tree are recorded as known findings by crash signature; a new signature is a violation."),
+        level_note=("Trusted: sanitizer reports, libFuzzer. Inputs <= 4 KB; limits rss 2 GB / malloc 1 GB / 10 s per input. A defect whose signature (sanitizer kind + "
+                    "first frame inside /repo, or oracle message) equals a recorded one in the same reader is not distinguished from it.")),
 }
